@@ -464,8 +464,11 @@ CLI_JOBS = {
               ('PPS', ['-ff', 'martini3001', '-noscfix']),
               ('SPSP', ['-ff', 'martini22', '-noscfix']),
               ('WwW', ['-ff', 'martini3001', '-elastic', '-noscfix']),
-              ('Ss', ['-ff', 'martini22', '-elastic', '-noscfix'])],
-    'thorough': [('WwW', ['-ff', 'martini3001', '-elastic', '-noscfix']), ('Ss', ['-ff', 'martini22', '-elastic', '-noscfix']),
+              ('Ss', ['-ff', 'martini22', '-elastic', '-noscfix']),
+              ('SPSP/ADCB', ['-ff', 'martini3001', '-noscfix', '-merge', 'A,D', '-merge', 'C,B'])],
+    'thorough': [('SPSP/ADCB', ['-ff', 'martini3001', '-noscfix', '-merge', 'A,D', '-merge', 'C,B']),
+                 ('PSPS/DACB', ['-ff', 'martini3001', '-noscfix', '-merge', 'D,A', '-merge', 'C,B', '-resid', 'input']),
+                 ('WwW', ['-ff', 'martini3001', '-elastic', '-noscfix']), ('Ss', ['-ff', 'martini22', '-elastic', '-noscfix']),
                  ('SsS', ['-ff', 'elnedyn22']), ('WwwW', ['-ff', 'martini3001', '-elastic', '-eunit', 'chain', '-noscfix']),
                  ('PSP', ['-ff', 'martini3001', '-nt', '-noscfix']),
                  ('PSP', ['-ff', 'martini3001', '-nt', '-noscfix', '-sep']),
